@@ -209,7 +209,7 @@ func mappingOf(w *World, fn *ssa.Function) ([]mapEntry, string) {
 var inverseConv = map[string]string{"id": "id", "slice": "array", "array": "slice", "unixnano": "fromnano", "fromnano": "unixnano"}
 
 func init() {
-	register("C19", []string{"./gossip", "./transformers", "./accountant", "./transaction", "./spice"},
+	register("C19", []string{"./gossip", "./transformers", "./accountant", "./transaction", "./spice", "./cache", "./notaryserver"},
 		"Sibling-table agreement of the wire mappings, decided from the SSA of the two mapper pairs: every signed/semantic field of Vertex, Transaction and Melange is mapped in both directions; composing the two directions is the identity on field names; "+
 			"each conversion pair is an inverse pair from {identity; h[:] / [32]byte(x); uint64(t.UnixNano()) / time.Unix(0,int64(x))}; the nested transaction mapping inside the vertex mappers agrees with transformers. "+
 			"The storage/cache (msgpack) pairs — one library encodes, another decodes — are NOT decided: their agreement is a property of the libraries' format tables over all values.",
@@ -369,10 +369,86 @@ func runC19(w *World, r *Report) {
 	for _, fn := range coders {
 		statelessObligation(w, r, "transcoders-stateless", fn)
 	}
+
+	r.rule("decode-into-zero-value", "every msgpack decode writes into a destination that is a fresh zero value on each execution (never a variable reused across records)", 2)
+	for _, fn := range w.RepoFuncs("accountant", "transaction", "spice", "cache") {
+		for _, c := range callsTo(fn, "github.com/shamaton/msgpack/v2.Unmarshal", "github.com/vmihailenco/msgpack.Unmarshal") {
+			ok, why := decodeTargetFresh(w, c.(ssa.Instruction), c.Common().Args[1], 2)
+			r.check(ok, "decode-into-zero-value", shortFn(fn)+"/Unmarshal", lineOf(w, c), "the decode destination is a fresh zero value", why)
+		}
+	}
 }
 
 func isRepoGlobal(g *ssa.Global) bool {
 	return g.Pkg != nil && strings.HasPrefix(g.Pkg.Pkg.Path(), modPath)
+}
+
+// decodeTargetFresh: the value a msgpack buffer is decoded into is a zero value on every execution of the call
+// (the decoder leaves absent / nil fields of the destination untouched, so a reused destination keeps fields of
+// the previous record).
+func decodeTargetFresh(w *World, at ssa.Instruction, target ssa.Value, depth int) (bool, string) {
+	v := target
+	for i := 0; i < 6; i++ {
+		switch x := v.(type) {
+		case *ssa.MakeInterface:
+			v = x.X
+			continue
+		case *ssa.ChangeType:
+			v = x.X
+			continue
+		case *ssa.ChangeInterface:
+			v = x.X
+			continue
+		}
+		break
+	}
+	switch x := v.(type) {
+	case *ssa.Alloc:
+		for _, ref := range *x.Referrers() {
+			if st, ok := ref.(*ssa.Store); ok && st.Addr == ssa.Value(x) {
+				return false, "the destination variable is assigned before it is decoded into"
+			}
+		}
+		cb := at.Block()
+		inLoop := reachable(cb.Succs, nil)[cb]
+		if inLoop && x.Block() != cb && !(reachable(cb.Succs, nil)[x.Block()]) {
+			return false, "the destination is declared outside the loop that decodes into it: the second record inherits what the first left behind"
+		}
+		return true, ""
+	case *ssa.Parameter:
+		fn := x.Parent()
+		if depth <= 0 {
+			return false, "destination is handed in by the caller"
+		}
+		idx := -1
+		for i, p := range fn.Params {
+			if p == x {
+				idx = i
+			}
+		}
+		n := 0
+		for _, g := range w.RepoFuncs() {
+			var bad string
+			instrsOf(g, func(in ssa.Instruction) {
+				c, ok := in.(ssa.CallInstruction)
+				if !ok || c.Common().StaticCallee() != fn || idx < 0 || idx >= len(c.Common().Args) {
+					return
+				}
+				n++
+				if ok2, why := decodeTargetFresh(w, in, c.Common().Args[idx], depth-1); !ok2 {
+					bad = shortFn(g) + " at " + lineOf(w, in) + ": " + why
+				}
+			})
+			if bad != "" {
+				return false, bad
+			}
+		}
+		if n == 0 {
+			return false, "destination is handed in by unknown callers"
+		}
+		return true, ""
+	}
+	return false, "destination is not a fresh local variable"
 }
 
 // statelessObligation: fn (and the same-package helpers it calls) touches no package-level mutable state of the
